@@ -111,8 +111,8 @@ func ParseFloat(b []byte) (float64, int) {
 	}
 	h := f * math.Pow10(int(-mantExp))
 	h *= math.Pow10(int(expExp))
-	if h == 0.0 || math.IsInf(h, 0) {
-		// either factor alone can leave math.Pow10's [-323,308] domain
+	if h == 0.0 || math.IsInf(h, 0) || mantExp < -308 || 308 < mantExp || expExp < -308 || 308 < expExp {
+		// either factor alone can leave the [-308,308] domain in which math.Pow10 is neither infinite nor subnormal
 		if exp < -308 {
 			f *= math.Pow10(-308)
 			exp += 308
